@@ -547,6 +547,16 @@ func genC11(o *Out, r *rand.Rand, thorough bool) {
 	o.do(ztableLine(0))
 	o.do(ztableLine(1))
 	sizes := []int{32, 64, 1 << 10, 1 << 14, 1 << 20}
+	// the table's lifetime is the game: through the engine, a later game (same engine, table size unchanged) and a second engine
+	// built from the same options report what a fresh engine reports - entries of an earlier game are not "true values" any more
+	// once the evaluation (noise) or the history differs
+	for k, kind := range []string{"morlock", "plain"} {
+		ms := playoutMoves(r, fen.Initial, 2+r.Intn(2))
+		line := fmt.Sprintf("published newgames %s %d 3 %s ; %s", kind, 1+k, fen.Initial, strings.Join(ms, " "))
+		o.do(line)
+		o.Count("newgames:" + kind)
+		o.Nontrivial(line)
+	}
 	for i := 0; i < n; i++ {
 		start, moves, b := noRepeatLine(r, 12)
 		cfg := pickCfg(r, b)
